@@ -220,12 +220,20 @@ impl<F: Write + Seek> Allocator<F> {
     ) -> io::Result<u32> {
         debug_assert_ne!(start_sector_id, consts::END_OF_CHAIN);
         let mut last_sector_id = start_sector_id;
+        let mut num_steps = 0;
         loop {
-            let next = self.fat[last_sector_id as usize];
+            let next = self.next(last_sector_id)?;
             if next == consts::END_OF_CHAIN {
                 break;
             }
             last_sector_id = next;
+            num_steps += 1;
+            if num_steps > self.fat.len() {
+                malformed!(
+                    "chain starting at sector {} has a loop",
+                    start_sector_id
+                );
+            }
         }
         let new_sector_id = self.allocate_sector(init)?;
         self.set_fat(last_sector_id, new_sector_id)?;
